@@ -13,6 +13,7 @@ event, parked readers with their *remaining* timeout read from the real frame) a
 Oracle (model independent): FIFO equation, "empty result only when closed and drained", "PipeTimeout only when nothing
 was buffered, buffer untouched", evaluated on the real runs; plus a stress run with real OS threads/locks/timeouts.
 """
+import ast
 import itertools
 import sys
 import threading
@@ -304,6 +305,245 @@ def enumerate_interleavings(rig_factory, progs, wake_choices=(0, 5), max_wakes=2
     return done
 
 
+METHODS = ("set_event", "feed", "read_ready", "read", "empty", "close", "__len__")
+
+
+def lock_regions(bpmod):
+    """From the AST of buffered_pipe.py: for every BufferedPipe method the lines that lie lexically inside
+    `self._lock.acquire(); try: … finally: self._lock.release()` (or `with self._lock:`), and the lines that touch
+    anything of `self` other than `self._lock` *outside* that region.  The model treats a method as lock-protected
+    regions only, so the second set must be empty."""
+    tree = ast.parse(open(bpmod.__file__).read())
+    cls = next(n for n in tree.body if isinstance(n, ast.ClassDef) and n.name == "BufferedPipe")
+    out = {}
+
+    def is_lock_call(st, name):
+        return (isinstance(st, ast.Expr) and isinstance(st.value, ast.Call) and not st.value.args
+                and ast.unparse(st.value.func) == "self._lock." + name)
+
+    for fn in cls.body:
+        if not isinstance(fn, ast.FunctionDef) or fn.name not in METHODS:
+            continue
+        locked = set()
+        for idx, st in enumerate(fn.body):
+            if (isinstance(st, ast.Try) and len(st.finalbody) == 1 and is_lock_call(st.finalbody[0], "release")
+                    and idx > 0 and is_lock_call(fn.body[idx - 1], "acquire")):
+                for sub in st.body + st.orelse + [h for h in st.handlers]:
+                    locked.update(range(sub.lineno, sub.end_lineno + 1))
+            elif isinstance(st, ast.With) and len(st.items) == 1 and ast.unparse(st.items[0].context_expr) == "self._lock":
+                for sub in st.body:
+                    locked.update(range(sub.lineno, sub.end_lineno + 1))
+        touching = {}
+        for node in ast.walk(fn):
+            if (isinstance(node, ast.Attribute) and isinstance(node.value, ast.Name) and node.value.id == "self"
+                    and node.attr != "_lock"):
+                touching.setdefault(node.lineno, set()).add(node.attr)
+        out[fn.name] = {"locked": locked, "touching": touching,
+                        "unlocked": {ln: sorted(a) for ln, a in touching.items() if ln not in locked}}
+    return out
+
+
+LINE_T1 = [("empty",), ("read", 2, None), ("read", 9, 5)]
+LINE_T2 = [("read", 1, 0), ("read", 2, None), ("empty",), ("close",)]
+LINE_T3 = [("feed", b"xy"), ("feed", b""), ("close",)]
+
+
+def line_level(ctx, bpmod, regions, cap):
+    """Statement-level schedules of three logical threads on the real BufferedPipe.  Yield points: every acquisition
+    of the pipe lock (also of a free lock), every cv.wait, and every source line of a BufferedPipe method that
+    touches the object's state while the executing thread does not hold the lock (there is none in the code the
+    model describes; such a line is reported as a broken tie *and* explored).  Lines executed under the lock, or
+    touching only locals, commute with everything the other threads can do, so this is the full statement-level
+    interleaving space up to that commutation.
+    Oracle per schedule: reads/empties ordered by their (last) lock acquisition ++ what is left in the buffer ==
+    the feeds in the order of their lock acquisitions.  The same acquisition order is replayed on the Lean model."""
+    bfile = bpmod.__file__
+    sched = lib_coop.Coop(trace=lambda code: code.co_filename == bfile and code.co_name in METHODS)
+    touching = {m: set(r["touching"]) for m, r in regions.items()}
+    cur = {}
+    sched.line_filter = lambda lt, frame: (frame.f_lineno in touching.get(frame.f_code.co_name, ())
+                                           and cur["lock"].owner is not lt)
+    threads = [sched.thread(i) for i in (1, 2, 3)]
+    runs = []
+    unprotected = {}
+
+    def execute(progs, start, prefix):
+        bp = bpmod.BufferedPipe()
+        seq = [0]
+        ops = []            # records: {"tid","op","acqs":[(seq, kind, elapsed)],"result":canonical or None}
+        running = {}
+
+        def hook(owner):
+            seq[0] += 1
+            if isinstance(owner, lib_coop.LThread) and owner.name in running:
+                rec = running[owner.name]
+                rec["acqs"].append((seq[0], rec.pop("next_kind", "entry"), rec.pop("next_elapsed", 0)))
+
+        lock = lib_coop.CoopLock(sched, "bp", always_yield=True, hook=hook)
+        bp._lock = lock
+        bp._cv = lib_coop.CoopCondition(lock)
+        cur["lock"] = lock
+        for t in threads:
+            t.clock = 0.0
+        if start:
+            bp.feed(start)
+        pcs, wakes = [0, 0, 0], [0, 0, 0]
+        avail, trace, depth = [], [], 0
+
+        def settle(i):
+            t = threads[i]
+            if t.state == "idle" and t.name in running:
+                rec = running.pop(t.name)
+                kind, val = t.result
+                if kind == "ok":
+                    rec["result"] = "ok" if rec["op"][0] in ("feed", "close") else "data:" + hx(val)
+                    rec["bytes"] = val if rec["op"][0] in ("read", "empty") else b""
+                elif isinstance(val, bpmod.PipeTimeout):
+                    rec["result"], rec["bytes"] = "timeout", b""
+                else:
+                    raise val
+            elif t.state == "line" and t.info is not None:
+                unprotected[(t.info[2], t.info[1])] = unprotected.get((t.info[2], t.info[1]), 0) + 1
+
+        while True:
+            ch = []
+            for i, t in enumerate(threads):
+                if t.state == "idle":
+                    if pcs[i] < len(progs[i]):
+                        ch.append((i, "start", 0))
+                elif t.state == "cv":
+                    if lock.owner is None and wakes[i] < 2:
+                        ch += [(i, "wake", 0), (i, "wake", 5)]
+                elif sched.enabled(t):
+                    ch.append((i, "step", 0))
+            avail.append(ch)
+            if not ch:
+                break
+            c = tuple(prefix[depth]) if depth < len(prefix) else ch[0]
+            if c not in ch:
+                raise InfraError("C26 line-level enumeration: replay diverged")
+            i, what, e = c
+            t = threads[i]
+            trace.append("T%d:%s%s" % (i + 1, what, e if what == "wake" else ""))
+            if what == "start":
+                op = progs[i][pcs[i]]
+                pcs[i] += 1
+                wakes[i] = 0
+                rec = {"tid": i + 1, "op": op, "acqs": [], "result": None, "bytes": b""}
+                ops.append(rec)
+                running[t.name] = rec
+                if op[0] == "feed":
+                    fn = (lambda d: lambda: bp.feed(d))(op[1])
+                elif op[0] == "read":
+                    fn = (lambda n, to: lambda: bp.read(n, None if to is None else float(to)))(op[1], op[2])
+                elif op[0] == "empty":
+                    fn = bp.empty
+                else:
+                    fn = bp.close
+                sched.begin(t, fn)
+            elif what == "wake":
+                wakes[i] += 1
+                running[t.name]["next_kind"] = "wake"
+                running[t.name]["next_elapsed"] = e
+                sched.wake(t, float(e))
+            else:
+                sched.step(t)
+            settle(i)
+            depth += 1
+            if depth > 200:
+                raise InfraError("C26 line-level: schedule does not end")
+        final_buf = bp._buffer.tobytes()
+        # release parked readers so the pooled threads are idle again (not part of the schedule any more)
+        running.clear()
+        lock.always_yield = False
+        bp.empty()
+        bp.close()
+        for i, t in enumerate(threads):
+            n = 0
+            while t.state != "idle":
+                if t.state == "cv":
+                    sched.wake(t, 0.0)
+                elif sched.enabled(t):
+                    sched.step(t)
+                else:
+                    raise InfraError("C26 line-level: thread cannot be released")
+                n += 1
+                if n > 50:
+                    raise InfraError("C26 line-level: thread does not end")
+            running.pop(t.name, None)
+        return {"progs": progs, "start": start, "trace": trace, "ops": ops, "final": final_buf}, avail
+
+    try:
+        scen = [(a, b, c, st) for a in LINE_T1 for b in LINE_T2 for c in LINE_T3 for st in (b"abc", b"")]
+        for a, b, c, st in scen:
+            progs = [[a], [b], [c]]
+            res, avail = execute(progs, st, [])
+            runs.append(res)
+            n0 = len(runs)
+            path = [x[0] for x in avail if x]
+            while len(runs) - n0 < cap:
+                d = len(path) - 1
+                while d >= 0:
+                    x = avail[d]
+                    if x.index(tuple(path[d])) + 1 < len(x):
+                        break
+                    d -= 1
+                if d < 0:
+                    break
+                prefix = path[:d] + [avail[d][avail[d].index(tuple(path[d])) + 1]]
+                res, av2 = execute(progs, st, prefix)
+                runs.append(res)
+                avail = avail[:d + 1] + av2[d + 1:]
+                path = prefix + [x[0] for x in av2[d + 1:] if x]
+    finally:
+        sched.shutdown()
+    return runs, unprotected
+
+
+def line_level_evaluate(ctx, runs):
+    """oracle + model requests for the line-level runs; returns [(requests, expected replies, case)]"""
+    out = []
+    for r in runs:
+        done = [o for o in r["ops"] if o["result"] is not None and o["acqs"]]
+        feeds = sorted((o for o in done if o["op"][0] == "feed"), key=lambda o: o["acqs"][-1][0])
+        takes = sorted((o for o in done if o["op"][0] in ("read", "empty")), key=lambda o: o["acqs"][-1][0])
+        fed = r["start"] + b"".join(o["op"][1] for o in feeds)
+        taken = b"".join(o["bytes"] for o in takes)
+        case = {"start": hx(r["start"]), "programs": [[list(hx(x) if isinstance(x, bytes) else x for x in op)
+                                                        for op in p] for p in r["progs"]], "schedule": r["trace"]}
+        parked = any(o["result"] is None for o in r["ops"])
+        ctx.case(("line", case["start"], repr(case["programs"]), tuple(r["trace"])), len(r["trace"]) > 6)
+        ctx.dist("case:line-level")
+        if any(o["result"] is None and not o["acqs"] for o in r["ops"]):
+            ctx.dist("line-level:unfinished-op")
+        if taken + r["final"] != fed:
+            ctx.fail("fifo-mismatch", case, "fed %s, handed out %s (in lock order), still buffered %s" % (
+                fed.hex(), [o["bytes"].hex() for o in takes], r["final"].hex()))
+        # replay on the model in acquisition order
+        events = []
+        for o in r["ops"]:
+            for k, (sq, kind, el) in enumerate(o["acqs"]):
+                last = k == len(o["acqs"]) - 1
+                reply = (o["result"] if o["result"] is not None else "wait") if last else "wait"
+                op = o["op"]
+                if kind == "wake":
+                    req = "wake %d %d" % (o["tid"], el)
+                elif op[0] == "feed":
+                    req = "feed " + hx(op[1])
+                elif op[0] == "read":
+                    req = "read %d %d %s" % (o["tid"], op[1], "none" if op[2] is None else op[2])
+                elif op[0] == "empty":
+                    req = "empty %d" % o["tid"]
+                else:
+                    req = "close"
+                events.append((sq, req, reply))
+        events.sort()
+        reqs = ["new"] + (["feed " + hx(r["start"])] if r["start"] else []) + [e[1] for e in events]
+        want = ["ok"] + (["ok"] if r["start"] else []) + [e[2] for e in events]
+        out.append((reqs, want, case))
+    return out
+
+
 def stress_real_threads(ctx, bpmod, rounds, nbytes):
     """Real OS threads, real locks, real clock: feeders and readers race; the FIFO equation and the rules for empty
     results must hold.  (No sleeps: readers poll with short real timeouts until closed and drained.)"""
@@ -364,7 +604,10 @@ def run(ctx):
                 "its deadline; spurious wake-ups included), empty, close, set_event; executed atomically region by region "
                 "under a cooperative lock/condition/clock. distinct = distinct (requests, replies) transcripts; "
                 "non-trivial = at least one reader parked in cv.wait during the schedule. Plus all interleavings of "
-                "2 threads x 2 operations over a 7-operation alphabet with wake-ups at elapsed 0 / 5 (deadline 5).")
+                "2 threads x 2 operations over a 7-operation alphabet with wake-ups at elapsed 0 / 5 (deadline 5), and "
+                "statement-level schedules of 3 threads (one of empty/read/timed read, one of read/empty/close, one of "
+                "feed/empty feed/close; buffer 'abc' or empty) with yields at lock acquisitions, waits and any state "
+                "access outside the lock.")
     ctx.trust("pv.lib_coop: cooperative Lock/Condition/clock stand in for threading.Lock/Condition and time.time "
               "(same interface; a wait ends only when the harness says so)",
               "threading.Condition semantics (wait releases the lock and re-acquires it before returning) — also "
@@ -372,6 +615,17 @@ def run(ctx):
     ctx.assume("threads interact with a BufferedPipe only through its methods (all of which hold self._lock)")
     ctx.build()
     rng = ctx.rng
+    # ---- the model's atomic regions are the code's: lock regions from the AST
+    regions = lock_regions(bpmod)
+    ctx.extra["lock_regions"] = {m: {"locked_lines": len(r["locked"]), "unlocked_state_access": r["unlocked"]}
+                                 for m, r in regions.items()}
+    for m in METHODS:
+        if m not in regions:
+            ctx.broken.append({"kind": "lock-region", "what": "BufferedPipe." + m, "detail": "method not found"})
+        elif regions[m]["unlocked"]:
+            ctx.broken.append({"kind": "lock-region", "what": "BufferedPipe." + m,
+                               "detail": "touches object state outside self._lock at line(s) %s — the model's atomic "
+                                         "regions are not the code's" % regions[m]["unlocked"]})
     real_time = bpmod.time
     bpmod.time = lib_coop.FakeTime(_time)
     rigs = []
@@ -414,6 +668,12 @@ def run(ctx):
         ctx.extra["enumerated_schedules"] = n_enum
         ctx.extra["enumerated_program_pairs"] = len(pairs)
         ctx.exhaustive = bool(ctx.thorough)
+        # ---- statement-level schedules of three threads (lock acquisitions, waits, unprotected accesses)
+        line_runs, unprotected = line_level(ctx, bpmod, regions, 2000 if ctx.thorough else 120)
+        ctx.extra["line_level_schedules"] = len(line_runs)
+        for (meth, ln), n in sorted(unprotected.items()):
+            ctx.broken.append({"kind": "lock-region", "what": "BufferedPipe.%s line %d" % (meth, ln),
+                               "detail": "executed %d times without holding self._lock (observed by the tracer)" % n})
     finally:
         bpmod.time = real_time
         if Rig.pool is not None:
@@ -448,6 +708,18 @@ def run(ctx):
             ctx.fail(sig, {"schedule": [[hx(x) if isinstance(x, bytes) else x for x in a] for a in rig.schedule]},
                      detail)
 
+    # ---- line-level runs: oracle and model replay
+    ll = line_level_evaluate(ctx, line_runs)
+    reqs = [q for (rq, _, _) in ll for q in rq]
+    replies = ctx.driver("C26", reqs)
+    pos = 0
+    for rq, want, case in ll:
+        got = replies[pos:pos + len(rq)] if replies is not None else None
+        pos += len(rq)
+        if got is not None and got != want:
+            k = next(i for i, (a, b) in enumerate(zip(got, want)) if a != b)
+            ctx.disagree("BufferedPipe region order (line-level run)", {"requests": rq[: k + 1], **case}, got[k], want[k])
+
     # ---- real OS threads
     stress_real_threads(ctx, bpmod, 12 if ctx.thorough else 4, 60000 if ctx.thorough else 12000)
 
@@ -469,7 +741,11 @@ META = {
               "old code). Atomic regions = the code's own (all methods hold self._lock; cv.wait is the only release). "
               "Tied to buffered_pipe.py by step-exact differential runs of the real class under a cooperative "
               "lock/condition/clock (random schedules of 1-3 threads, exhaustive 2x2 interleavings, state dumps incl. "
-              "remaining timeouts), plus a real-thread stress run."),
+              "remaining timeouts), by the lock-region table extracted from the AST of buffered_pipe.py (every statement "
+              "touching object state must lie inside acquire/try/finally-release; also observed by the tracer), by "
+              "statement-level schedules of three threads (yield at every lock acquisition, cv.wait and unprotected state "
+              "access; FIFO equation in lock order on the real code, same order replayed on the model), plus a "
+              "real-thread stress run."),
     "note": ("Trusted: Lean kernel + 3 standard axioms; pv.lib_coop (cooperative stand-ins for Lock/Condition/time); "
              "threading.Condition semantics. Wake-ups are over-approximated (any parked reader may wake at any time with "
              "any elapsed time), so the theorems cover every behaviour of the real condition variable. Time is integer "
